@@ -98,6 +98,12 @@ def run_segment(spec):
                     call = lambda a, fn=fn: fn.partial(a)()  # noqa: E731
                 elif pres == "force_local":
                     call = lambda a, fn=fn: fn.force_local()(a)  # noqa: E731
+                elif pres == "partial+force_local":       # two chained modifiers
+                    call = lambda a, fn=fn: fn.partial(a).force_local()()  # noqa: E731
+                elif pres == "ctx+partial":
+                    call = lambda a, fn=fn: fn.with_context_args({}).partial(a)()  # noqa: E731
+                elif pres == "force_local+ignore+partial":
+                    call = lambda a, fn=fn: fn.force_local().partial(a).force_local()()  # noqa: E731
                 else:
                     call = fn
             else:
@@ -187,7 +193,12 @@ def run_deps(spec):
     results = {}
     for mname, name in spec["roots"]:
         fn = getattr(mods[mname], name)
-        results["%s.%s" % (mname, name)] = [call_outcome(fn, a) for a in spec["args"]]
+        if spec.get("chained") and not spec["identity"]:
+            # the first argument is called directly, the others through two chained modifiers (same memo key)
+            calls = [fn] + [(lambda a, fn=fn: fn.partial(a).force_local()()), (lambda a, fn=fn: fn.force_local().partial(a)())]
+            results["%s.%s" % (mname, name)] = [call_outcome(calls[i % 3], a) for i, a in enumerate(spec["args"])]
+        else:
+            results["%s.%s" % (mname, name)] = [call_outcome(fn, a) for a in spec["args"]]
     out = {"deps": deps, "results": results}
     if spec.get("passing") and not spec["identity"]:
         # the same roots called with memento functions handed over in the context arguments (such functions may be
